@@ -129,7 +129,7 @@ def perturb(w, r):
 UNRELATED = (None, True, 0, 1, -1, 2.5, "", "abc", [], [1, "a"], {}, {"a": 1}, {"id": 1, "name": "x"}, b"x",
              [[1], [2]], {"a": {"b": {"c": 1}}}, float("nan"), float("inf"), 10 ** 20, [None, None, None],
              S.NIL_UUID, S.V1_UUID, [S.V1_UUID], {"id": S.NIL_UUID}, UUID(int=7, version=4), 1.0, 0.0, -0.0, False,
-             [True, 1.0], {"x": 0.0, "y": -0.0}, date(2021, 1, 1), datetime(2021, 1, 1, 0, 0, 0), [b""], {"k": [1.0, True]})
+             [True, 1.0], {"x": 0.0, "y": -0.0}, 1e308, -1e300, [1.7e308], {"big": 1e308}, date(2021, 1, 1), datetime(2021, 1, 1, 0, 0, 0), [b""], {"k": [1.0, True]})
 
 
 def child_pairs(s_sch, v):
@@ -177,6 +177,8 @@ def value_features(v):
             f.append("v:is_nan")
         elif v in (math.inf, -math.inf):
             f.append("v:is_inf")
+        elif abs(v) * 10.0 == math.inf or abs(v) >= 1e293:
+            f.append("v:huge")
     if type(v) in (dict, list) and "fnan" in canon(v):
         f.append("v:contains_nan")
     if type(v) is dict:
